@@ -144,7 +144,15 @@ impl StreamMaps {
                 let mut stream_map = StreamMap::new();
                 stream_map.insert(key, &value, generation)?;
                 let descriptor = StreamMapDescriptor::global(stream_map);
-                self.stream_maps.insert(name.to_string(), vec![descriptor]);
+                // there could be restricted stream maps with such a name that don't cover the position
+                // (e.g. a `next` inside a `new`), they must outlive this call, so the global one is
+                // put before them to keep the order of decreasing scopes
+                match self.stream_maps.get_mut(name) {
+                    Some(descriptors) => descriptors.insert(0, descriptor),
+                    None => {
+                        self.stream_maps.insert(name.to_string(), vec![descriptor]);
+                    }
+                }
                 Ok(())
             }
         }
